@@ -185,23 +185,42 @@ def _case(draw):
         d = draw(_later(cur))
         stages.append(d)
         cur = fold(cur, d)
-    return {'stages': stages}
+    return {'stages': stages, 'forced': draw(st.sampled_from([None, None, None, None, 'del', 'del+set']))}
 
 
 def strategy():
     return _case()
 
 
+def _forced_scenario(kind):
+    """A placeholder protected by a priority of its own, three levels below a key which a later stage replaces with a !del mapping:
+    it survives the replacement (protected entries do, at any depth) and counts - unless a still later stage sets it with the same force."""
+    first = ['fp', tdoc.mp([('s', tdoc.sc(1)), ('mid', tdoc.mp([('deep', tdoc.mp([
+        ('need', {'t': 'empty', 'tag': '!required', 'prio': 1, 'mdstyle': 'braces'}), ('o', tdoc.sc(2))]))]))])]
+    later = [tdoc.mp([('fp', tdoc.mp([('s', tdoc.sc(5))], flow=True, **{'del': True}))])]
+    if kind == 'del+set':
+        later.append(tdoc.mp([('fp', tdoc.mp([('mid', tdoc.mp([('deep', tdoc.mp([('need', tdoc.sc(7, prio=1))], flow=True))], flow=True))], flow=True))]))
+    return first, later
+
+
 def run_case(case):
     stages = case['stages']
-    texts = [tdoc.render(s) for s in stages]
     cur = stages[0]
     for d in stages[1:]:
         cur = fold(cur, d)
     initial = required_paths(stages[0])
     surv = required_paths(cur)
+    forced = case.get('forced')
+    if forced:
+        first, later = _forced_scenario(forced)
+        stages = [tdoc.mp(list(stages[0]['items']) + [first], **{k: v for k, v in stages[0].items() if k not in ('t', 'items')})] + list(stages[1:]) + later
+        if forced == 'del':
+            surv = list(surv) + [('fp', 'mid', 'deep', 'need')]
+    texts = [tdoc.render(s) for s in stages]
     all_paths_ever = set(initial)
     labels = {f'stages={len(stages)}', 'placeholders=%d' % min(len(initial), 4), 'survivors=%d' % min(len(surv), 4)}
+    if forced:
+        labels.add('forced-placeholder-below-a-replaced-key:' + forced)
     if any(n['t'] == 'alias' for _, n in tdoc.walk(stages[0])):
         labels.add('aliased-placeholder')
     in_special = False
